@@ -10,7 +10,7 @@ From Coq Require Import String.
 From Coq Require Import List Ascii ZArith Bool Lia.
 From CGV Require Import Base.PyBase Base.PyVal Base.PyGen Base.NxGraph Gen.WriterGen Dialect.DialectImpl.
 From CGV Require Import Write.WriteImpl Write.WriteDefs Write.WriteProofs Write.TreeDefs Write.TreeWrite Write.TreeTables
-     Write.DfsProofs Write.WfFacts Write.TreeRead Write.PathRound.
+     Write.DfsProofs Write.WfFacts Write.TreeRead Write.PathRound Write.WriteRound.
 From CGV Require Import Reader.ReaderImpl Reader.Grammar Reader.Lin Reader.ReaderSim.
 Import ListNotations.
 Open Scope Z_scope.
